@@ -51,7 +51,16 @@ func setup4(args ...string) (handler.Handler4, error) {
 }
 
 func Handler4(req, resp *dhcpv4.DHCPv4) (*dhcpv4.DHCPv4, bool) {
-	v6pref := req.IsOptionRequested(dhcpv4.OptionIPv6OnlyPreferred)
+	// RFC 8925 section 3.1: the option is only for clients that explicitly list it.
+	// IsOptionRequested is also true when there is no parameter request list at
+	// all, which would stop address assignment for every such IPv4-only client.
+	v6pref := false
+	for _, o := range req.ParameterRequestList() {
+		if o.Code() == dhcpv4.OptionIPv6OnlyPreferred.Code() {
+			v6pref = true
+			break
+		}
+	}
 	log.WithFields(logrus.Fields{
 		"mac":      req.ClientHWAddr.String(),
 		"ipv6only": v6pref,
